@@ -18,3 +18,119 @@ func VerifEnumField(es *EnumSchema) *EnumField {
 
 // VerifCachePackages exposes the packages a SchemaCache has built so far.
 func VerifCachePackages(sc *SchemaCache) map[string]*Package { return sc.packages }
+
+// VerifResolveFrom resolves a type name written in `from`'s scope by the
+// protobuf scoping rule (innermost scope first); nil when it does not resolve.
+func (u *VerifUniverse) VerifResolveFrom(typeName string, from *VerifMessage) (*VerifMessage, *VerifEnum) {
+	if len(typeName) > 0 && typeName[0] == '.' {
+		// fully qualified
+		return u.messages[typeName[1:]], u.enums[typeName[1:]]
+	}
+	if m, ok := u.lookupRelative(typeName, from); ok {
+		return m, nil
+	}
+	if e, ok := u.lookupRelativeEnum(typeName, from); ok {
+		return nil, e
+	}
+	return nil, nil
+}
+
+// protoc resolves a relative name by looking for its FIRST component in each
+// enclosing scope, innermost first; once that component is found the rest of
+// the name must resolve inside it (no backtracking to outer scopes).
+func (u *VerifUniverse) firstComponentScope(typeName string, from *VerifMessage) (string, bool) {
+	first := typeName
+	if i := indexByte(typeName, '.'); i >= 0 {
+		first = typeName[:i]
+	}
+	scope := from.full
+	for {
+		cand := first
+		if scope != "" {
+			cand = scope + "." + first
+		}
+		if _, ok := u.messages[cand]; ok {
+			return scope, true
+		}
+		if _, ok := u.enums[cand]; ok {
+			return scope, true
+		}
+		if cand == u.packageOf(from) { // a package segment
+			return scope, true
+		}
+		if scope == "" {
+			return "", false
+		}
+		if i := lastIndexByte(scope, '.'); i >= 0 {
+			scope = scope[:i]
+		} else {
+			scope = ""
+		}
+	}
+}
+
+func (u *VerifUniverse) packageOf(m *VerifMessage) string { return m.file.fdp.GetPackage() }
+
+func (u *VerifUniverse) lookupRelative(typeName string, from *VerifMessage) (*VerifMessage, bool) {
+	scope, ok := u.firstComponentScope(typeName, from)
+	if !ok {
+		return nil, false
+	}
+	full := typeName
+	if scope != "" {
+		full = scope + "." + typeName
+	}
+	m, ok := u.messages[full]
+	return m, ok
+}
+
+func (u *VerifUniverse) lookupRelativeEnum(typeName string, from *VerifMessage) (*VerifEnum, bool) {
+	scope, ok := u.firstComponentScope(typeName, from)
+	if !ok {
+		return nil, false
+	}
+	full := typeName
+	if scope != "" {
+		full = scope + "." + typeName
+	}
+	e, ok := u.enums[full]
+	return e, ok
+}
+
+func indexByte(s string, c byte) int {
+	for i := 0; i < len(s); i++ {
+		if s[i] == c {
+			return i
+		}
+	}
+	return -1
+}
+
+func lastIndexByte(s string, c byte) int {
+	for i := len(s) - 1; i >= 0; i-- {
+		if s[i] == c {
+			return i
+		}
+	}
+	return -1
+}
+
+func (m *VerifMessage) VerifNested(i int) *VerifMessage { return m.nested[i] }
+func (m *VerifMessage) VerifNestedCount() int           { return len(m.nested) }
+func (m *VerifMessage) VerifFullName() string           { return m.full }
+func (u *VerifUniverse) VerifAllMessages() []*VerifMessage {
+	out := []*VerifMessage{}
+	var add func(m *VerifMessage)
+	add = func(m *VerifMessage) {
+		out = append(out, m)
+		for _, n := range m.nested {
+			add(n)
+		}
+	}
+	for _, f := range u.Files {
+		for _, m := range f.msgs {
+			add(m)
+		}
+	}
+	return out
+}
